@@ -105,6 +105,12 @@ TEXT = {
         "level_note": "Strings are abstract (lower-casing and splitting uninterpreted), get_calendar_by_name is an assumed contract (C07 decides the tables behind it). Trusted: Verus/Z3, the extractor, the chrono and collection shims.",
         "design_ref": "DESIGN.md §7 C06",
     },
+    "C13": {
+        "technique": "Verus contracts on the extracted generic dsolve21_ / dsolve_upper21_ / dmul11_ bodies verified once over an abstract commutative ring (loop invariants: echelon form, invertible pivots, solution-set inclusion); ring and inner-product lemma library proved from the ring axioms",
+        "level_text": "Proof: the generic bodies are extracted from /repo each run with T bound to an abstract commutative ring (only the ring axioms, (a/p)*p == a for invertible p, and an order key for |.| are known). For every n, every matrix and right-hand side with `regular(a)` (the contract's form of non-singular) the returned x satisfies <row_i(a), x> == b_i for every i, as an identity in the ring - for Dual/Dual2 instances that is equality of value and of every first and second derivative. Back substitution is proved for every upper-triangular system with invertible diagonal; elimination is proved to keep every solution of the current system a solution of the original one (row operations seen backwards) and to produce zeros below invertible pivots.",
+        "level_note": "Assumed: ring axioms for Dual/Dual2, contracts of row_swap / el_swap / argabsmax and of the ndarray API, regular(a) <=> non-singular. Not covered: row-order independence, floating-point conditioning.",
+        "design_ref": "DESIGN.md §7 C13",
+    },
     "C07": {
         "engine": "verus-compiled-checker",
         "technique": "Verus-verified generic table checker (loop invariants over all 84371 days, sorted-table membership lemma) compiled and executed on the extracted tables",
